@@ -24,7 +24,7 @@ type c12PQItem struct {
 	live bool
 }
 
-//verif:h prop=C12 p.pushes=3/3 p.ops=2/3 cover=pop,popuntil,remove,remove-twice runs=2000000 timeout=200/900
+//verif:h prop=C12 p.pushes=3/3 p.ops=2/3 cover=pop,popuntil,remove,remove-twice runs=2000000 timeout=900/900
 func H_C12_priorityqueue() {
 	pq := New[int, c12Prio]()
 	var items []*c12PQItem
